@@ -7,7 +7,8 @@
 //     store_page(key, timeout).  One `ipage` line = one real request played over the socket.
 // The clock is virtual (time() interposed, as in c07.cpp).
 //
-//   inew <limit>
+//   inew thread <cache.limit|-> | inew process <cache.limit|-> <cache.memory KiB|->      ("-" = key absent from the settings;
+//                                   the shared segment is created once per process: use one cache.memory per harness run)
 //   iadd <t> | ifetch <now> <k> <nt> | istore <now> <k> <v> <trigs|-> <timeout> <nt> | iattach <id> | idetach <id>
 //   ireset | irise <t> | iclear | istats
 //   ipage <now> <key> <timeout> <body> <op;op;…|->        (ops as above with ':' instead of blanks)
@@ -127,7 +128,8 @@ struct server {
 		recs.clear(); ci.reset();
 		if(srv.get()) { srv->shutdown(); if(thr.get()) thr->join(); thr.reset(); srv.reset(); }
 	}
-	bool start(unsigned limit)
+	// backend: thread | process; limit / memory: configured value or "-" (key absent from the settings)
+	bool start(std::string const &backend,std::string const &limit,std::string const &memory)
 	{
 		stop();
 		sock="c07i.sock"; ::unlink(sock.c_str());
@@ -135,8 +137,9 @@ struct server {
 		cfg["service"]["api"]="scgi";
 		cfg["service"]["socket"]=sock;
 		cfg["service"]["worker_threads"]=1;
-		cfg["cache"]["backend"]="thread_shared";
-		cfg["cache"]["limit"]=int(limit);
+		cfg["cache"]["backend"]=(backend=="process" ? "process_shared" : "thread_shared");
+		if(limit!="-") cfg["cache"]["limit"]=atoi(limit.c_str());
+		if(memory!="-") cfg["cache"]["memory"]=atoi(memory.c_str());
 		cfg["gzip"]["enable"]=false;
 		cfg["logging"]["level"]="emergency";
 		cfg["localization"]["locales"][0]="C";
@@ -184,7 +187,10 @@ static std::vector<std::string> split(std::string const &s,char c)
 
 static std::string run(std::vector<std::string> const &w)
 {
-	if(w.size()==2 && w[0]=="inew") { if(!g.start(strtoul(w[1].c_str(),0,10))) return "cannot-start"; return "ok"+tail(); }
+	if(w[0]=="inew" && ((w.size()==3 && w[1]=="thread") || (w.size()==4 && w[1]=="process"))) {
+		if(!g.start(w[1],w[2],w.size()==4?w[3]:std::string("-"))) return "cannot-start";
+		return "ok"+tail();
+	}
 	if(!g.srv.get() || w.empty()) return "bad-op";
 	if(w.size()==6 && w[0]=="ipage") {
 		virtual_now=strtoll(w[1].c_str(),0,10);
